@@ -2317,7 +2317,7 @@ evhttp_parse_headers_(struct evhttp_request *req, struct evbuffer* buffer)
 		    (svalue[-2] == ' ' || svalue[-2] == '\t'))
 			goto error;
 
-		svalue += strspn(svalue, " ");
+		svalue += strspn(svalue, " \t");
 		evutil_rtrim_lws_(svalue);
 
 		if (evhttp_add_header(headers, skey, svalue) == -1)
